@@ -242,12 +242,9 @@ fn oracle_bytes(kind: u8, n: u64, out: &str) -> Option<(&'static str, String)> {
         }
         k
     };
-    let (k_lo, k_hi) = if binary {
-        (fit(x), fit(x))
-    } else {
-        // repeated rounded division by 1000: a relative slack of 2^-49
-        (fit(x - (x >> 49)), fit(x + (x >> 49)))
-    };
+    // exact for 1024 and for 1000: the repeated rounded division by 1000 never moves the value
+    // across a power of 1000 (C15_bytes_shape proves base^k <= x < base^(k+1) for both bases)
+    let (k_lo, k_hi) = (fit(x), fit(x));
     if unit == "B" {
         if !all_digits(val) || val != n.to_string() {
             return Some(("bytes-shape", format!("{out:?}: plain bytes must be the whole number {n}")));
@@ -273,11 +270,20 @@ fn oracle_bytes(kind: u8, n: u64, out: &str) -> Option<(&'static str, String)> {
     }
     let v: i128 = ip.parse::<i128>().unwrap() * 100 + fp.parse::<i128>().unwrap();
     let scale: i128 = (kilo as i128).pow(k as u32);
-    // |v/100 * kilo^k - n| <= kilo^k/200 (+ slack for the u64->f64 conversion and the divisions)
-    let err2 = (2 * (v * scale - 100 * n as i128)).abs();
-    let slack2 = if binary && n < (1 << 53) { 0 } else { (200 * n as i128) >> 49 };
-    if err2 > scale + slack2 {
-        return Some(("bytes-value", format!("{out:?} is not {n} / {kilo}^{k} rounded to two decimals")));
+    // v hundredths = x / kilo^k rounded to the nearest hundredth, x = n as f64 (an integer):
+    // 1024: |v * kilo^k - 100 x| <= kilo^k / 2 exactly (the divisions are exact), ties to even;
+    // 1000: up to 2^-32 of a hundredth (k <= 6 rounded divisions)       [C15_bytes_shape]
+    let err = (v * scale - 100 * x as i128).abs();
+    let bad = if binary {
+        2 * err > scale || (2 * err == scale && v % 2 != 0)
+    } else {
+        (err << 32) > ((1i128 << 31) + 1) * scale
+    };
+    if bad {
+        return Some(("bytes-value", format!("{out:?} is not {x} (= {n} as f64) / {kilo}^{k} rounded to two decimals")));
+    }
+    if v < 100 || v > 100 * kilo as i128 {
+        return Some(("bytes-value", format!("{out:?}: value outside 1.00 ..= {kilo}.00")));
     }
     None
 }
@@ -448,6 +454,17 @@ fn u64_boundaries() -> Vec<(u64, &'static str)> {
         1_500_000_000_000_000,
         7654,
         1234567890,
+        // the largest binary64 numbers below 1000^6 and 1024^6 and what rounds up to the powers
+        999_999_999_999_999_872,
+        999_999_999_999_999_935,
+        999_999_999_999_999_936,
+        (1 << 60) - 128,
+        (1 << 60) - 65,
+        (1 << 60) - 64,
+        // prefix chosen before rounding to two decimals: "1024.00 KiB", "1000.00 kB"
+        1_048_575,
+        999_999,
+        999_994,
     ] {
         v.push((x, "u64:special"));
     }
@@ -784,6 +801,6 @@ fn main() {
     if let Some(d) = worst {
         cx.s.fail("hd-monotone", d.clone(), d);
     }
-    cx.s.notes.push("HumanBytes(999_999)/DecimalBytes print \"1000.00 kB\" (prefix chosen before rounding to two decimals): cosmetic, within the statement".into());
+    cx.s.notes.push("interpretation (docs/C15.md): the prefix is the largest one fitting the VALUE x = n as f64; the value is rounded to two decimals afterwards, so DecimalBytes(999_999) prints \"1000.00 kB\" and HumanBytes(1_048_575) \"1024.00 KiB\" (C15_bytes_shape: 100 <= q <= 100 base)".into());
     cx.s.finish();
 }
